@@ -42,8 +42,7 @@ pub enum ExecRes {
 // is asked.  The functions are uninterpreted: the semantics below is stated relative to them.  What links them to
 // the real calls is stated where the calls are specified (unit U13: try_resolve, read_to_string, share_base,
 // get_txtpp_file, Shell::run, write_temp_file).
-/// the path names a txtpp source: `x.txtpp` or `x.txtpp.ext` (TxtppPath::is_txtpp_file; defined and proved in unit U9)
-pub uninterp spec fn is_txtpp_v(p: PathV) -> bool;
+/// (is_txtpp_v(p): the path names a txtpp source - spec/txtpp_names.rs, proved against is_txtpp_file in unit U9)
 /// the `.txtpp` source from which the file `p` is generated, if there is one (TxtppPath::get_txtpp_file)
 pub uninterp spec fn w_get_txtpp(p: PathV) -> Option<PathV>;
 /// the canonical form of a dependency path (AbsPath::share_base); None: it cannot be resolved
